@@ -21,7 +21,14 @@ theorem backward_liveness_eq_single (G : LGraph) (dead : List Nat) (tensors : Li
     (hm : 0 < m) (hc : ValidChunk chunk) (hi : inputs ≠ []) :
     runCalls G (backwardCalls tensors inputs m chunk retain) dead =
       engineCall G dead ⟨tensors, inputs, retain⟩ := by
-  sorry
+  -- `hm`, `hc` are not needed: `chunkRanges` always yields at least one block
+  have _ := hm; have _ := hc
+  have he : inputs.isEmpty = false := by
+    cases inputs with
+    | nil => exact absurd rfl hi
+    | cons _ _ => rfl
+  simp only [backwardCalls, he, Bool.false_eq_true, if_false]
+  exact runCalls_jacCalls G tensors inputs m chunk retain dead
 
 /-- in particular a call that would succeed as a single sweep succeeds for every chunk size: no
     "freed buffer" failure between the internal sweeps when `retain_graph = False` -/
@@ -30,12 +37,13 @@ theorem backward_succeeds_all_chunks (G : LGraph) (dead : List Nat) (tensors : L
     (hm : 0 < m) (h₁ : ValidChunk c₁) (h₂ : ValidChunk c₂) (hi : inputs ≠ []) :
     runCalls G (backwardCalls tensors inputs m c₁ retain) dead =
       runCalls G (backwardCalls tensors inputs m c₂ retain) dead := by
-  sorry
+  rw [backward_liveness_eq_single G dead tensors inputs m c₁ retain hm h₁ hi,
+    backward_liveness_eq_single G dead tensors inputs m c₂ retain hm h₂ hi]
 
 /-- with `retain_graph = True` the graph stays fully usable: the liveness state is unchanged -/
 theorem retain_true_identity (G : LGraph) (dead d : List Nat) (outs : List Nat)
     (targets : List (Nat × Nat)) (h : engineCall G dead ⟨outs, targets, true⟩ = some d) : d = dead := by
-  sorry
+  exact engineCall_retain_some G dead d ⟨outs, targets, true⟩ rfl h
 
 /-- hence an identical second call behaves identically -/
 theorem retain_true_repeat (G : LGraph) (dead : List Nat) (tensors : List Nat)
@@ -43,19 +51,23 @@ theorem retain_true_repeat (G : LGraph) (dead : List Nat) (tensors : List Nat)
     (hi : inputs ≠ []) (d : List Nat)
     (h : runCalls G (backwardCalls tensors inputs m chunk true) dead = some d) :
     d = dead ∧ runCalls G (backwardCalls tensors inputs m chunk true) d = some d := by
-  sorry
+  rw [backward_liveness_eq_single G dead tensors inputs m chunk true hm hc hi] at h
+  have hd : d = dead := retain_true_identity G dead d tensors inputs h
+  subst hd
+  exact ⟨rfl, by rw [backward_liveness_eq_single G d tensors inputs m chunk true hm hc hi]; exact h⟩
 
 /-- with `retain_graph = False` exactly the executed nodes are released -/
 theorem free_releases_executed (G : LGraph) (dead d : List Nat) (outs : List Nat)
     (targets : List (Nat × Nat)) (h : engineCall G dead ⟨outs, targets, false⟩ = some d) (n : Nat) :
     n ∈ d ↔ n ∈ dead ∨ n ∈ executed G outs targets := by
-  sorry
+  rw [engineCall_some_mem G dead d ⟨outs, targets, false⟩ h n]
+  simp
 
 /-- a call fails exactly when it has to execute a node whose saved tensors were already released -/
 theorem call_fails_iff (G : LGraph) (dead : List Nat) (c : Call) :
     engineCall G dead c = none ↔
       ∃ n ∈ executed G c.outs c.targets, (G.getD n ⟨false, []⟩).hasSaved = true ∧ n ∈ dead := by
-  sorry
+  rw [engineCall_none_iff, fails_iff]
 
 /-- `mtl_backward` (per-task `Grad` calls with the caller's flag, then the chunked trunk sweeps) versus
     the joint call `torch.autograd.backward(losses, inputs = shared ∪ task params, retain_graph)`.
@@ -78,7 +90,9 @@ theorem mtl_liveness_eq_joint (G : LGraph) (dead : List Nat)
     let split := runCalls G (mtlCalls tasks features shared chunk retain) dead
     (joint.isSome = split.isSome) ∧
     ∀ dj ds, joint = some dj → split = some ds → ∀ n, n ∈ dj ↔ n ∈ ds := by
-  sorry
+  have _ := hc; have _ := ht
+  intro joint split
+  exact mtl_main G dead tasks features shared chunk retain hdisj hdisj' hcut
 
 /-! non-vacuity: y = (a*x)*(a*x): node 0 = outer Mul (saved), node 1 = inner Mul (saved), nodes 2, 3 =
     AccumulateGrad of a and x.  Two sweeps with chunk size 1, no retain: succeeds, both Mul nodes released;
